@@ -177,7 +177,7 @@ def repo_hash():
 
 
 CXX = "g++"
-BASEFLAGS = ["-std=c++11", "-O1", "-g", "-DGDSTK_VERIF", "-I" + os.path.join(REPO, "include"),
+BASEFLAGS = ["-std=c++11", "-O1", "-g", "-DNDEBUG", "-DGDSTK_VERIF", "-I" + os.path.join(REPO, "include"),
              "-I" + os.path.join(REPO, "external")]
 ASANFLAGS = ["-fsanitize=address,undefined", "-fno-sanitize-recover=all", "-fno-omit-frame-pointer"]
 
